@@ -376,6 +376,46 @@ def r7_8(prog, chk):
     chk.floor("R7.8", n, 2)
 
 
+def r7_15(prog, chk):
+    """R7.15 - positions are removed from the highest one.  A loop that removes the samples / columns designated by the POSITIONS of a list
+    (`deleteSample(v[i])`, `deleteColumnByColIdx(v[i])`) removes them in decreasing order (`v = VH::sort(list, false)`): in increasing order
+    each removal shifts the following positions and the next one removes a neighbour (deleteSamples({1, 3}) removed samples 1 and 4)."""
+    from e1_paths import single_def
+
+    def strip(e):
+        while e is not None and e["k"] in ("Cast", "Paren") and e.get("c"):
+            e = e["c"][0]
+        return e
+    n = 0
+    for f in sorted(prog.funcs, key=lambda x: (x.file, x.line)):
+        if f.body is None or not (f.cls or "").startswith("Db"):
+            continue
+        for L in f.walk():
+            if L["k"] != "For" or len(L["c"]) < 4 or L["c"][3] is None:
+                continue
+            for c in walk(L["c"][3]):
+                if c["k"] != "MCall" or (c.get("callee") or "").split("::")[-1] not in ("deleteSample", "deleteColumnByColIdx"):
+                    continue
+                a = strip(call_args(c)[0]) if call_args(c) else None
+                if a is None or a["k"] not in ("Index", "OpCall") or strip(a["c"][0]) is None or strip(a["c"][0])["k"] != "DeclRefExpr":
+                    continue
+                v = strip(a["c"][0])
+                n += 1
+                dd = single_def(f, v["d"])
+                dd = strip(dd) if dd is not None else None
+                while dd is not None and dd["k"] == "Construct" and dd.get("c"):
+                    dd = strip(dd["c"][0])
+                ok = False
+                if dd is not None and dd["k"] in ("Call", "MCall") and (dd.get("callee") or "").split("::")[-1] == "sort":
+                    args = call_args(dd)
+                    ok = len(args) >= 2 and args[1] is not None and strip(args[1]) is not None and strip(args[1])["k"] == "Bool" and not strip(args[1]).get("v")
+                chk.analysed(f)
+                chk.ob("R7.15", "%s: `%s` removes the positions of `%s` from the highest one" % (f.name, show(c)[:40], v["n"]), f.loc(c), ok,
+                       detail=None if ok else "`%s` is not the list sorted in decreasing order (VH::sort(.., false)): each removal shifts the positions that follow, "
+                       "so other samples / columns than the designated ones are removed" % v["n"], key="R7.15|%s|%s" % (f.name, v["n"]))
+    chk.floor("R7.15", n, 2)
+
+
 def main(tier):
     chk = Check("C07", tier,
                 "Static structural clauses of Db consistency: the internal maps are private; every method that changes the shape of "
@@ -478,6 +518,7 @@ def main(tier):
                    detail=None if ok else "`%s` (line %s) runs before the validity test: a call refused for its argument has already changed the data base" % (
                        show(hit)[:50], f.loc(hit).split(":")[-1]), key="R7.14|%s/%d|%s" % (f.name, len(f.params), show(core)[:40]), nontrivial=not ok)
     chk.floor("R7.14", n14, 30)
+    r7_15(prog, chk)
     # R7.13: what a reader decodes is used.  In the `_deserialize` functions of the Db family every local that only RECEIVES values
     # (push_back / assignment / output argument) and is never read afterwards is a decoded field that the rebuilt object ignores
     # (the rank of a role decoded from "z2" and then replaced by "next free rank": the roles are renumbered at reload)
